@@ -3,6 +3,7 @@
 package main
 
 import (
+	"go/types"
 	"flag"
 	"fmt"
 	"os"
@@ -16,6 +17,7 @@ import (
 
 	"mhubsa/ana"
 	"mhubsa/load"
+	"mhubsa/norm"
 	"mhubsa/report"
 	"mhubsa/rules"
 )
@@ -125,6 +127,25 @@ func run(r *report.Report, f rules.PropertyFunc, tier, mutantSpec string) (code 
 		}
 		r.Reset()
 	}
+	// Still violations: statements may have been moved into private helpers, which hides them from rules that
+	// look at one function at a time.  Re-check a behaviourally equivalent program in which the private
+	// single-caller helpers that play no part in any discharged obligation are inlined at their call sites
+	// (package norm).  The verdict of the equivalent program is adopted only if it is completely clean;
+	// otherwise the report of the program as written stands.
+	if r.Pending() > 0 && os.Getenv("MHUBSA_NONORM") == "" {
+		if r2, note := normalisedRun(r, c, f, tier, overlay); r2 != nil {
+			r.Obls, r.Counts, r.Minimum = r2.Obls, r2.Counts, r2.Minimum
+			for k, v := range r2.Analysed {
+				r.Analysed[k] = v
+			}
+			r.Extra["normalised"] = note
+		} else if note != "" {
+			r.Extra["normalisation_attempt"] = note
+		}
+		if os.Getenv("MHUBSA_DEBUGNORM") != "" {
+			fmt.Fprintln(os.Stderr, "normalisation:", r.Extra["normalised"], r.Extra["normalisation_attempt"])
+		}
+	}
 	if n := len(c.Fold.M); n > 0 {
 		r.Analysed["helpers_folded"] = n
 	}
@@ -134,7 +155,284 @@ func run(r *report.Report, f rules.PropertyFunc, tier, mutantSpec string) (code 
 	return r.Finish()
 }
 
+// namesIn collects the functions that the obligations of the given status speak about (by name in the key
+// or detail, or by the position they are reported at).
+func namesIn(r *report.Report, progs []*ana.Prog, status string) map[string]bool {
+	out := map[string]bool{}
+	type span struct {
+		file       string
+		from, to   int
+		full, name string
+	}
+	var spans []span
+	byName := map[string]string{}
+	for _, p := range progs {
+		for _, fn := range p.AllFuncs {
+			o := ana.Outermost(fn)
+			tf, _ := o.Object().(*types.Func)
+			if tf == nil || o.Syntax() == nil {
+				continue
+			}
+			byName[ana.FuncName(o)] = tf.FullName()
+			a, b := p.L.Fset.Position(o.Syntax().Pos()), p.L.Fset.Position(o.Syntax().End())
+			rel := p.L.Pos(o.Syntax().Pos())
+			if i := strings.LastIndex(rel, ":"); i > 0 {
+				rel = rel[:i]
+			}
+			spans = append(spans, span{rel, a.Line, b.Line, tf.FullName(), ana.FuncName(o)})
+		}
+	}
+	var names []string
+	for n := range byName {
+		names = append(names, n)
+	}
+	for _, o := range r.Obls {
+		if o.Status != status || (status == report.Violation && r.IsOpenKnown(o.Rule, o.Key)) {
+			continue
+		}
+		for _, n := range names {
+			if strings.Contains(o.Key, n) || strings.Contains(o.Detail, n) {
+				// the name must not merely be a prefix of a longer function name
+				for _, txt := range []string{o.Key, o.Detail} {
+					idx := strings.Index(txt, n)
+					for idx >= 0 {
+						end := idx + len(n)
+						if end == len(txt) || !(txt[end] == '_' || txt[end] >= 'a' && txt[end] <= 'z' || txt[end] >= 'A' && txt[end] <= 'Z' || txt[end] >= '0' && txt[end] <= '9') {
+							out[byName[n]] = true
+						}
+						nx := strings.Index(txt[idx+1:], n)
+						if nx < 0 {
+							break
+						}
+						idx += 1 + nx
+					}
+				}
+			}
+		}
+		if i := strings.LastIndex(o.Where, ":"); i > 0 {
+			file := o.Where[:i]
+			line, _ := strconv.Atoi(o.Where[i+1:])
+			for _, sp := range spans {
+				if sp.file == file && sp.from <= line && line <= sp.to {
+					out[sp.full] = true
+				}
+			}
+		}
+	}
+	return out
+}
+
+// normalisedRun re-runs the check on the equivalent program with private helpers inlined.  It returns the
+// new report when that report is clean, and a note describing what was done.
+func normalisedRun(r *report.Report, c *rules.Ctx, f rules.PropertyFunc, tier string, base map[string][]byte) (*report.Report, string) {
+	progs := []*ana.Prog{c.P}
+	mods := c.LoadedModules()
+	var modNames []string
+	for m := range mods {
+		modNames = append(modNames, m)
+	}
+	sort.Strings(modNames)
+	for _, m := range modNames {
+		progs = append(progs, mods[m])
+	}
+	sem := namesIn(r, progs, report.OK)
+	sus := namesIn(r, progs, report.Violation)
+	// functions that the discharged obligations of any other property speak about are not helpers either
+	semAll, susAll := map[string]bool{}, map[string]bool{}
+	for k := range sem {
+		semAll[k] = true
+	}
+	for k := range sus {
+		susAll[k] = true
+	}
+	allDone := false
+	allNames := func() {
+		if allDone {
+			return
+		}
+		allDone = true
+		var ids []string
+		for id := range rules.Registry {
+			ids = append(ids, id)
+		}
+		sort.Strings(ids)
+		tmp, err := os.MkdirTemp("", "mhubsa-sem-")
+		if err != nil {
+			return
+		}
+		defer os.RemoveAll(tmp)
+		for _, id := range ids {
+			if id == r.Property {
+				continue
+			}
+			func() {
+				defer func() { recover() }()
+				ro := report.New(tmp, id, tier, 0)
+				co := &rules.Ctx{R: ro, P: c.P, Tier: tier, Overlay: base, Fold: &rules.FoldSet{M: map[*ssa.Function]bool{}}}
+				co.ShareModules(c)
+				rules.Registry[id](co)
+				ps := progs
+				for _, m := range co.LoadedModules() {
+					ps = append(ps, m)
+				}
+				for k := range namesIn(ro, ps, report.OK) {
+					semAll[k] = true
+				}
+				for k := range namesIn(ro, ps, report.Violation) {
+					susAll[k] = true
+				}
+			}()
+		}
+	}
+	// shared: a multi-statement function with several callers (a shared abstraction rather than an extracted
+	// block); thin: a wrapper without control flow.  Stage 1 inlines what the functions a violation points at
+	// call; stage 2 the extracted blocks no discharged obligation of any property speaks about; stage 3
+	// additionally the private functions violations point at.
+	stages := []func(h, caller *types.Func, shared, thin bool) bool{
+		func(h, caller *types.Func, shared, thin bool) bool {
+			return sus[caller.FullName()] && !sus[h.FullName()] && !sem[h.FullName()]
+		},
+		func(h, caller *types.Func, shared, thin bool) bool {
+			if shared || thin {
+				return false
+			}
+			allNames()
+			return !semAll[h.FullName()]
+		},
+		func(h, caller *types.Func, shared, thin bool) bool {
+			if shared || thin {
+				return false
+			}
+			allNames()
+			return susAll[h.FullName()] || !semAll[h.FullName()]
+		},
+	}
+	type modSpec struct {
+		module   string
+		patterns []string
+	}
+	specs := []modSpec{{"module", []string{"./x/...", "./app/..."}}}
+	for _, m := range modNames {
+		specs = append(specs, modSpec{m, mods[m].L.Opt.Patterns})
+	}
+	var notes []string
+	for si, keep := range stages {
+		overlay := map[string][]byte{}
+		for k, v := range base {
+			overlay[k] = v
+		}
+		ctr := 0
+		var inlined []string
+		allDead := map[string]bool{}
+		failed := ""
+		for _, ms := range specs {
+			dead := map[string]bool{}
+			var l *load.Loaded
+			if ms.module == "module" {
+				l = c.P.L
+			} else {
+				l = mods[ms.module].L
+			}
+			for round := 0; round < 4; round++ {
+				res := norm.Round(l, keep, overlay, dead, &ctr)
+				if len(res.Inlined) == 0 {
+					break
+				}
+				nl, err := load.Load(load.Options{Module: ms.module, Patterns: ms.patterns, Full: false, Overlay: res.Overlay})
+				if err != nil {
+					// the rewriting produced something that does not type-check: give up on this stage
+					failed = err.Error()
+					if len(failed) > 300 {
+						failed = failed[:300]
+					}
+					break
+				}
+				overlay, dead, l = res.Overlay, res.Dead, nl
+				inlined = append(inlined, res.Inlined...)
+				for k := range res.Dead {
+					allDead[k] = true
+				}
+			}
+		}
+		if failed != "" {
+			notes = append(notes, fmt.Sprintf("stage %d abandoned: %s", si+1, failed))
+			continue
+		}
+		if len(inlined) == 0 {
+			continue
+		}
+		r2, note := checkNormalised(r, f, tier, overlay, allDead, inlined)
+		if r2 != nil {
+			return r2, note
+		}
+		notes = append(notes, note)
+	}
+	return nil, strings.Join(notes, " | ")
+}
+
+func checkNormalised(r *report.Report, f rules.PropertyFunc, tier string, overlay map[string][]byte, allDead map[string]bool, inlined []string) (*report.Report, string) {
+	if len(inlined) == 0 {
+		return nil, ""
+	}
+	l, err := load.Load(load.Options{Module: "module", Patterns: []string{"./x/...", "./app/..."}, Full: tier == "thorough", Overlay: overlay, Dead: allDead})
+	if err != nil {
+		return nil, "normalised program does not load: " + err.Error()
+	}
+	p2 := ana.NewProg(l)
+	r2 := report.New(r.Dir, r.Property, r.Tier, r.Seed)
+	c2 := &rules.Ctx{R: r2, P: p2, Tier: tier, Overlay: overlay, Dead: allDead, Fold: &rules.FoldSet{M: map[*ssa.Function]bool{}}}
+	for pass := 0; ; pass++ {
+		c2.Fold.Changed = false
+		c2.Sub = nil
+		f(c2)
+		if !c2.Fold.Changed || pass >= 3 {
+			break
+		}
+		r2.Reset()
+	}
+	note := fmt.Sprintf("%d call site(s) of private single-caller helpers inlined: %s", len(inlined), strings.Join(inlined, "; "))
+	if r2.Pending() == 0 {
+		return r2, note
+	}
+	if os.Getenv("MHUBSA_DEBUGNORM") != "" {
+		fmt.Fprintln(os.Stderr, "  normalised-stage:", strings.Join(inlined, "\n       "))
+		for _, o := range r2.Obls {
+			if o.Status == report.Violation {
+				fmt.Fprintln(os.Stderr, "  normalised-still:", o.Rule, o.Key, o.Where, o.Detail)
+			}
+		}
+		for rule, min := range r2.Minimum {
+			if r2.Counts[rule] < min {
+				fmt.Fprintln(os.Stderr, "  normalised-min:", rule, r2.Counts[rule], min)
+			}
+		}
+		if d := os.Getenv("MHUBSA_DUMPNORM"); d != "" {
+			for name, b := range overlay {
+				os.WriteFile(filepath.Join(d, filepath.Base(name)), b, 0o644)
+			}
+		}
+	}
+	return nil, note + fmt.Sprintf(" — the equivalent program still has %d open obligation(s); the report of the program as written stands", r2.Pending())
+}
+
 func doDebug(what string) int {
+	if strings.HasPrefix(what, "cfunc:") {
+		l, err := load.Load(load.Options{Module: "minter-connector", Patterns: []string{"./..."}})
+		if err != nil {
+			fmt.Fprintln(os.Stderr, err)
+			return 2
+		}
+		p := ana.NewProg(l)
+		fn := p.Func(strings.TrimPrefix(what, "cfunc:"))
+		if fn == nil {
+			for _, f := range p.Funcs {
+				fmt.Println(ana.FuncName(f))
+			}
+			return 1
+		}
+		fn.WriteTo(os.Stdout)
+		return 0
+	}
 	l, err := load.Load(load.Options{Module: "module", Patterns: []string{"./x/...", "./app/..."}})
 	if err != nil {
 		fmt.Fprintln(os.Stderr, err)
